@@ -5,6 +5,8 @@ import (
 	"flag"
 	"fmt"
 	"go/ast"
+	"hash/fnv"
+	"math/rand"
 	"os"
 	"path/filepath"
 	"regexp"
@@ -31,37 +33,41 @@ type harnessCfg struct {
 	Known     string // known-finding id this harness demonstrates (expected to fail while open)
 	MaxSteps  int
 	MaxPaths  int
-	Thorough  bool // only run in the thorough tier
-	NoNative  bool // counterexamples are confirmed by concrete re-execution of the SSA only
+	Thorough  bool   // only run in the thorough tier
+	NoNative  bool   // counterexamples are confirmed by concrete re-execution of the SSA only
+	NoWitness string // reason why complete-path witnesses cannot be run natively (engine-level library models)
 	Bounds    string
 }
 
 type harnessResult struct {
-	Cfg         harnessCfg
-	Paths       int
+	Cfg            harnessCfg
+	Paths          int
 	PathsAsserting int
-	Asserts     int
-	Discharged  int
-	Trivial     int
-	Unknown     int
-	Aborts      int
-	Blocked     int
-	Z3Q, CvcQ   int
-	Z3T, CvcT   time.Duration
-	MaxQ        time.Duration
-	Fallback    int
-	Disagree    int
-	Terms       int
-	Wall        time.Duration
-	Funcs       []string
-	Models      []string
-	Assumps     []string
-	Notes       []string
-	Samples     []string
-	Sites       map[string]int
-	StaticSites []string
-	Violations  []*Violation
-	Replays     []replayOutcome
+	Asserts        int
+	Discharged     int
+	Trivial        int
+	Unknown        int
+	Aborts         int
+	Blocked        int
+	Z3Q, CvcQ      int
+	Z3T, CvcT      time.Duration
+	MaxQ           time.Duration
+	Fallback       int
+	Disagree       int
+	Terms          int
+	Wall           time.Duration
+	Funcs          []string
+	Models         []string
+	Assumps        []string
+	Notes          []string
+	Samples        []string
+	Sites          map[string]int
+	StaticSites    []string
+	Violations     []*Violation
+	Replays        []replayOutcome
+	Finished       int        // paths on which the harness ran to its end
+	Witnesses      []*witness // sampled complete paths with a solver model (see witness.go)
+	WitnessNote    string
 }
 
 type replayOutcome struct {
@@ -101,6 +107,7 @@ func main() {
 	if s := os.Getenv("VERIF_SEED"); s != "" {
 		seed, _ = strconv.Atoi(s)
 	}
+	witnessSeed = int64(seed)
 	debug.SetGCPercent(800)
 	os.Setenv("PATH", filepath.Join(verifDir, "bin", "goshim")+":"+os.Getenv("PATH"))
 	start := time.Now()
@@ -109,6 +116,7 @@ func main() {
 		os.Exit(replayStored(*replayFile))
 	}
 
+	mutationSpec = *mut
 	overlay, mutated, err := buildOverlay(*mut)
 	if err != nil {
 		fmt.Println("INCONCLUSIVE:", err)
@@ -161,6 +169,22 @@ func main() {
 		os.Exit(2)
 	}
 
+	// Self-test runs (-mut: an overlay mutant of /repo) never write into /verif/evidence or
+	// /verif/replays: those describe the real tree only.
+	outDir := verifDir
+	if *mut != "" {
+		if d := os.Getenv("VERIF_SELFTEST_OUT"); d != "" {
+			outDir = d
+		} else {
+			d, err := os.MkdirTemp("", "vpselftest")
+			if err != nil {
+				fmt.Println("INCONCLUSIVE:", err)
+				os.Exit(2)
+			}
+			outDir = d
+			defer os.RemoveAll(d)
+		}
+	}
 	known := loadKnown()
 	results := make([]*harnessResult, len(sel))
 	var wg sync.WaitGroup
@@ -217,7 +241,7 @@ func main() {
 		}
 		for _, v := range r.Violations {
 			replayN++
-			file := filepath.Join(verifDir, "replays", fmt.Sprintf("%s-%s-%d.json", *prop, c.Name, replayN))
+			file := filepath.Join(outDir, "replays", fmt.Sprintf("%s-%s-%d.json", *prop, c.Name, replayN))
 			out := confirm(prog, pkg, c, v, file, *prop, overlay, mutated, *noReplay, *tier == "thorough")
 			r.Replays = append(r.Replays, out)
 			switch out.Result {
@@ -232,24 +256,38 @@ func main() {
 			}
 		}
 	}
+	// ---- witness validation: sampled complete paths executed against the native build ----
+	witT := time.Now()
+	natOK, ssaOK, problems := validateWitnesses(prog, pkg, results, overlay, mutated, known, *noReplay)
+	for _, p := range problems {
+		inconclusive = true
+		fmt.Println("INCONCLUSIVE encoding-vs-implementation mismatch:", p)
+	}
+	if *verbose {
+		fmt.Printf("witnesses: native agree=%d ssa-concrete agree=%d problems=%d (%.1fs)\n", natOK, ssaOK, len(problems), time.Since(witT).Seconds())
+	}
 	for _, l := range lines {
 		fmt.Println(l)
 	}
 	wall := time.Since(start)
-	if err := writeEvidence(*prop, *tier, seed, results, loadT, wall, nViol); err != nil {
+	if err := writeEvidence(outDir, *prop, *tier, seed, results, loadT, wall, nViol, natOK, ssaOK, time.Since(witT)); err != nil {
 		fmt.Println("INCONCLUSIVE: cannot write evidence:", err)
 		os.Exit(2)
 	}
-	tot := struct{ p, a, d int }{}
+	tot := struct{ p, a, d, sv int }{}
 	for _, r := range results {
 		tot.p += r.Paths
-		tot.a += r.Asserts
-		tot.d += r.Discharged
+		tot.a += r.Asserts + r.Trivial
+		tot.d += r.Discharged + r.Trivial
+		tot.sv += r.Discharged
 	}
-	fmt.Printf("property=%s tier=%s harnesses=%d paths=%d obligations=%d discharged=%d violations=%d wall=%.1fs (bounded symbolic check; bounds in evidence/%s.json)\n",
-		*prop, *tier, len(results), tot.p, tot.a, tot.d, nViol, wall.Seconds(), *prop)
+	fmt.Printf("property=%s tier=%s harnesses=%d paths=%d obligations=%d discharged=%d (by solver verdict: %d, by constant folding on the forked path: %d) witness_paths_agreeing_natively=%d violations=%d wall=%.1fs (bounded symbolic check; bounds in evidence/%s.json)\n",
+		*prop, *tier, len(results), tot.p, tot.a, tot.d, tot.sv, tot.d-tot.sv, natOK, nViol, wall.Seconds(), *prop)
 	if exit == 0 && inconclusive {
 		exit = 2
+	}
+	if *mut != "" && os.Getenv("VERIF_SELFTEST_OUT") == "" {
+		os.RemoveAll(outDir)
 	}
 	os.Exit(exit)
 }
@@ -347,6 +385,8 @@ func harnessConfigs(p *packages.Package, pkg *ssa.Package) []harnessCfg {
 						c.Thorough = true
 					case "nonative":
 						c.NoNative = true
+					case "nowitness":
+						c.NoWitness = arg
 					case "bounds":
 						c.Bounds = arg
 					}
@@ -363,6 +403,9 @@ func harnessConfigs(p *packages.Package, pkg *ssa.Package) []harnessCfg {
 func expandName(n string) string {
 	return strings.ReplaceAll(n, "bs.", "github.com/danthegoodman1/bloomsearch.")
 }
+
+var witnessSeed int64
+var mutationSpec string
 
 func runHarness(prog *ssa.Program, pkg *ssa.Package, c harnessCfg, thorough bool, fixed []ReplayVal) *harnessResult {
 	ts := NewTermStore()
@@ -388,15 +431,21 @@ func runHarness(prog *ssa.Program, pkg *ssa.Package, c harnessCfg, thorough bool
 	}
 	if fixed != nil {
 		e.fixedMode, e.Fixed = true, fixed
+	} else {
+		e.WitnessK = witnessPerHarness(thorough)
+		h := fnv.New64a()
+		h.Write([]byte(c.Name))
+		e.witRng = rand.New(rand.NewSource(witnessSeed ^ int64(h.Sum64())))
 	}
 	fn := pkg.Func(c.Name)
 	start := time.Now()
 	e.RunHarness(fn)
+	wits := e.witnessModels()
 	r := &harnessResult{Cfg: c, Paths: e.Paths, PathsAsserting: e.PathsAsserting, Asserts: e.Asserts, Discharged: e.Discharged, Trivial: e.Trivial, Unknown: e.Unknown,
 		Aborts: e.Aborts, Blocked: e.Blocked, Z3Q: sol.z3.Queries, CvcQ: sol.cvc.Queries, Z3T: sol.z3.Time, CvcT: sol.cvc.Time,
 		Fallback: sol.Fallback, Disagree: sol.Disagree, Terms: len(ts.terms), Wall: time.Since(start),
 		Funcs: sortedKeys(e.FuncsSeen), Models: sortedKeys(e.ModelsUsed), Assumps: sortedKeys(e.Assumptions), Notes: e.Notes,
-		Samples: e.Samples, Sites: e.AssertSites, Violations: e.Violations}
+		Samples: e.Samples, Sites: e.AssertSites, Violations: e.Violations, Finished: e.Finished, Witnesses: wits}
 	r.MaxQ = sol.z3.MaxQ
 	if sol.cvc.MaxQ > r.MaxQ {
 		r.MaxQ = sol.cvc.MaxQ
